@@ -498,7 +498,7 @@ def outputColumnsF (c : Cat) : Nat → Ctes → Node → Res (List Column × Cte
       | "TruncateStmt" => pure ((node.get "Relations").search (·.isKind "RangeVar"))
       | "UpdateStmt" =>
         if (node.get "FromClause").isNull then .error "panic:output_columns.go: n.FromClause is nil"
-        else pure ((node.get "FromClause").items ++ [node.get "Relation"])
+        else pure ([node.get "Relation"] ++ (node.get "FromClause").items)
       | k => .error s!"other:sourceTables: unsupported node type: {k}" : Res (List Node))
     let (tables, ctes) ← list.foldlM (fun (st : List Table × Ctes) item => do
       let (tables, ctes) := st
@@ -595,7 +595,7 @@ def sourceTables (c : Cat) (ctes : Ctes) (node : Node) : Res (List Table × Ctes
     | "TruncateStmt" => pure ((node.get "Relations").search (·.isKind "RangeVar"))
     | "UpdateStmt" =>
       if (node.get "FromClause").isNull then .error "panic:output_columns.go: n.FromClause is nil"
-      else pure ((node.get "FromClause").items ++ [node.get "Relation"])
+      else pure ([node.get "Relation"] ++ (node.get "FromClause").items)
     | k => .error s!"other:sourceTables: unsupported node type: {k}" : Res (List Node))
   list.foldlM (fun (st : List Table × Ctes) item => do
     let (tables, ctes) := st
